@@ -99,6 +99,20 @@ class CombineMatrices(Contract):
         yield "operands_unchanged", L.and_(*[L.eq(a, b) for a, b in zip(np.asarray(inp["L"], dtype=object).reshape(-1), out["L0"].reshape(-1))], *[L.eq(a, b) for a, b in zip(np.asarray(inp["R"], dtype=object).reshape(-1), out["R0"].reshape(-1))])
 
 
+def _combine_sweep(self, tier, seed):
+    from contracts.common import native_sweep
+
+    pool = ("a", "b", "c", "d", "e", "f", "g", "h")
+    cases = []
+    for left, right in ((pool[:6], pool[2:8]), (pool[3:8] + pool[:1], pool[:7]), (pool, tuple(reversed(pool))), (pool[:5], pool[5:])):
+        for dl, dr in ((2, 2), (3, 2), (2, 3), (3, 3)):
+            cases.append({"left": tuple(left), "right": tuple(right), "dim_left": dl, "dim_right": dr})
+    return native_sweep(self, cases, tries=2, seed=seed)
+
+
+CombineMatrices.bounded_checks = _combine_sweep
+
+
 class DatasetMatrixPermutation(Contract):
     """calculate_dataset_matrix: permuting the declaration order of megacomplexes and of their labels
     permutes the labelled columns accordingly (abstract megacomplexes, scales attached to megacomplexes)."""
